@@ -115,6 +115,26 @@ def run(ck):
                         same_el = b.resolve(c.args[1]) & b.resolve(a.args[1]) or T.copy_chain_locals(b, c.args[1]) & T.copy_chain_locals(b, a.args[1])
                         if fa and same_el and T.reachable_only_via(b, a.bb, fa):
                             ok = True
+                # (a') the iterated collection is already filtered by `!final.contains(x)`
+                for h, blk in b.loops().items():
+                    if a.bb not in blk:
+                        continue
+                    hc = b.call_at(h)
+                    if hc is None or hc.name != "next":
+                        continue
+                    for r_, p_ in b.resolve(hc.args[0]):
+                        if r_[0] != "call":
+                            continue
+                        fc = b.call_at(r_[1])
+                        if fc.name != "filter":
+                            continue
+                        for cb in T.closure_bodies_passed(b, fc):
+                            caps = common.closure_captures(b, cb)
+                            negated = any(st["s"] == "assign" and st["pl"]["l"] == 0 and st["rv"]["r"] == "un" and st["rv"]["op"] == "Not" for i_, j_, st in cb.statements())
+                            cont = [c for c in cb.calls() if c.f and c.f["path"] == SIG + "::contains"]
+                            cap_ok = any(loc is not None and ("local", loc) in final_ids for n_, (loc, aps, _) in caps.items())
+                            if negated and cont and cap_ok:
+                                ok = True
                 # (b) the same element is removed from the final mask in the same iteration
                 for r_ in sigcalls(b, "remove"):
                     if set_id(b, r_.args[0]) in final_ids:
